@@ -177,6 +177,8 @@ def equal(a, b):
 
 def classify(c, r):
     t = c.split(" ")
+    if t[0] in ("w7h", "cl7h", "w7e"):
+        return f"{t[0]} " + (t[1] if t[0] != "w7e" and len(t) > 1 else "-") + " " + (r.split(" ")[0] if r else "none")
     if len(t) < 8:
         return "malformed"
     return f"{t[0]} {t[1]} " + (r.split(" ")[0] if r else "none")
